@@ -142,7 +142,14 @@ class Interp(Engine):
         # general value semantics: a or b -> a if truth(a) else b
         acc = vals[-1][0]
         for v, t in reversed(vals[:-1]):
-            acc = self.ite(t, acc, v) if isinstance(n.op, ast.And) else self.ite(t, v, acc)
+            try:
+                acc = self.ite(t, acc, v) if isinstance(n.op, ast.And) else self.ite(t, v, acc)
+            except Unsupported:
+                # operands that cannot be joined into one value (e.g. two different list objects): fork the path
+                if self.decide(t):
+                    acc = acc if isinstance(n.op, ast.And) else v
+                else:
+                    acc = v if isinstance(n.op, ast.And) else acc
         return acc
 
     want_truth = False
